@@ -416,6 +416,14 @@ theorem controlled_phase (perm : List Nat → List Nat) (r : Nat → Rat) (order
       congr 1; push_cast; ring
   rw [gen, simulate_times_sum perm r order nSteps hn q time]
 
+/-- Basis-change bookkeeping of the low-rank step: the single-particle matrices of the basis changes it emits,
+`W⁻¹` (= `W†`, `bogoliubov_transform(one_body_basis_change_matrix.T.conj())`), then `prior·B_j⁻¹` for every
+singular component, then the last `B_J`, multiply to the identity (in any group; the matrices are unitary) —
+the step ends in the computational basis again, whatever the number of components. -/
+theorem lr_basis_changes_telescope {G : Type} [Group G] (W : G) (Bs : List G) :
+    (W⁻¹ :: lrBasisSeq W Bs).prod = 1 := by
+  rw [List.prod_cons, lrBasisSeq_prod, inv_mul_cancel]
+
 /-- Exactness for commuting pieces (Mathlib matrix exponential): if the generators `G` of one Trotter
 step commute pairwise, the product over all leaf steps of the whole simulation — every order, every
 step count, every value of the Suzuki ratios, any involutive or other qubit bookkeeping — of the step
